@@ -19,6 +19,8 @@ def main(tier):
     rep.gaps.append('only the enumerated catalogue (named lattices, low-symmetry / 2D / rotated cells, spin decorations, glide cells with several species, '
                     'NOSYM, strained copies, seeded random cells); the algebraic part of GroupOp (product, inverse acting as maps) is proved in C23')
     rep.extra['rule'] = 'one evaluation per contract clause per operation/atom; distinct = distinct (crystal, clause kind) signatures'
+    from contracts import fresh_c
+    fresh_c.run(rep, contracts=fresh_c.CRYSTAL_CONTRACTS, class_fields=[])      # ownership (level P): the crystal shares no array with its constructor arguments
     return finish(rep, 'exploration',
                   'Run-time contract on Crystal construction over the bounded catalogue: every operation is an integer unimodular lattice map, an '
                   'isometry, maps each atom onto the recorded atom of the same species (spins up to one global phase), and the set is closed '
